@@ -240,6 +240,8 @@ class Models:
                 return [Res("ok", st, PMeth(v, name))]
             if k == "slice" and name in ("start", "stop", "step"):
                 return [Res("ok", st, z3.Select(st.get("idict", a_of(v)), STR.sid(name)))]
+            if k == "RLock" and name in ("__enter__", "__exit__", "acquire", "release"):
+                return [Res("ok", st, PBuiltin("rlock.noop"))]
         h = self.attr_hooks.get(name)
         if h is not None:
             r = h(eng, st, v, fx)
@@ -413,6 +415,9 @@ class Models:
 
     def hash_check(self, eng, st, k):
         """dict/set key use: unhashable -> TypeError.  -> [(st, ok:bool)]"""
+        if z3.is_false(z3.simplify(is_ref(k))):
+            st.assume(hashable(k))           # atoms (numbers, strings, None, classes) are hashable
+            return [(st, True)]
         return eng.split(st, hashable(k), note="hashable")
 
     def as_index(self, eng, st, idx, what):
@@ -1460,7 +1465,13 @@ class Models:
         return [Res("ok", st, PPartial(pos[0], pos[1:], kw))]
 
     def bi_threading_RLock(self, eng, st, pos, kw, fx):
+        CLS.add("RLock", ("object",))
+        eng.known.add("RLock")
         return [Res("ok", st, eng.alloc_obj(st, "RLock"))]
+
+    def bi_rlock_noop(self, eng, st, pos, kw, fx):
+        # A-RLOCK: a re-entrant lock provides mutual exclusion and is released on every exit; sequentially a no-op
+        return [Res("ok", st, NONE)]
 
     def bi_inspect_isclass(self, eng, st, pos, kw, fx):
         x = pos[0]
